@@ -22,6 +22,16 @@
    counter threaded through the state, IN THE ORDER the implementation draws.  Every LOGGER.critical (the CLI
    stops) and every uncaught exception is `Err _`; LOGGER.error / warn do not stop.
 
+   How a row is READ follows the tree (Gen/Tables.v: behavioural probes of translator/tables_flowread.py,
+   tables_c04.py, tables_c01.py; tables_c01.py checks the first two for every row type the model applies them to):
+   padding_edges_dropped_at_read   - FlowParser._parse_next_row drops trivial edges other than the first for every
+                                     row type (before the repair a05766f only rows that create a node omitted them);
+   has_group_edges_by_name         - RowNodeGroup.add_exit compiles a has_group condition of a row that is not a
+                                     split_by_group row with the arguments [None, value] (before f02a865: [value]);
+   has_group_by_name_from_noop     - the same for NoOpNodeGroup.add_exit.
+   SwitchRouter.record_global_uuids (container validation, after every flow is compiled) reads arguments[1] of every
+   has_group case: a case with fewer arguments is an IndexError.
+
    Loops, templating, include_if, insert_as_block: not here (they are eliminated before: Comp/Blocks.v,
    Tmpl/RowLoop.v).  Actions are opaque canonical payloads (their construction is not modelled).
    Group/flow uuids written by update_global_uuids (has_group argument 0) are not modelled: the argument stays
@@ -50,6 +60,14 @@ Record crow := mkCRow {
   cr_kind : nkind;         (* read for TNode rows only *)
   cr_uuid : str }.         (* the given `_nodeId` ("" = none) *)
 
+(* FlowParser._parse_next_row: `row.edges = [edge for i, edge in enumerate(row.edges) if edge != Edge() or i == 0]`
+   since the repair; the rows as parsed before it *)
+Definition read_edges (es : list redge) : list redge :=
+  if padding_edges_dropped_at_read then drop_padding es else es.
+Definition cread_row (cr : crow) : crow :=
+  mkCRow (mkRow (r_type (cr_row cr)) (r_id (cr_row cr)) (r_node_name (cr_row cr)) (read_edges (r_edges (cr_row cr))))
+         (cr_kind cr) (cr_uuid cr).
+
 (* ---------------------------------------------------------------- objects *)
 Definition dst := option id.                (* destination_uuid: None, Some "HARD_EXIT", Some <node uuid> *)
 Record cexit := mkCExit { x_uuid : id; x_dest : dst }.
@@ -59,7 +77,9 @@ Record ccase := mkCCase { ck_uuid : id; ck_type : str; ck_args : list (option st
 Inductive cwait := CWNone | CWMsg | CWTimeout (seconds : N) (noresp : ccat).
 Record cswitch := mkSwitch {
   sw_operand : str; sw_result : option str; sw_wait : cwait;
-  sw_cases : list ccase; sw_cats : list ccat; sw_default : ccat }.
+  sw_cases : list ccase; sw_cats : list ccat; sw_default : ccat;
+  sw_auto : list id }.        (* SwitchRouter._generated_name_uuids: the categories whose name was invented (ghost before the repair
+                                 of category-name-clash: nothing reads it then) *)
 Record crandom := mkRandom { rr_result : option str; rr_cats : list ccat }.
 (* the Python class of a node with a SwitchRouter: SwitchRouterNode / EnterFlowNode / CallWebhookNode or
    TransferAirtimeNode (the two are treated alike by RowNodeGroup.add_exit) *)
@@ -92,6 +112,8 @@ Inductive cerr :=
 | EWrongTerminator      (* 'Wrong block terminator "end_block" found for block of type root_block.' *)
 | EUnexpectedEnd        (* "Unexpected end of flow. Did you forget end_for/end_block?" *)
 | ECatNameTooLong       (* RapidProRouterError "Category name too long (>115)" *)
+| ECatNameTaken         (* RapidProRouterError 'Category name "..." is taken by the default or No Response category' (repair of
+                           category-name-clash) *)
 | EDupNodeUuid (u : id) (* 'Node uuid "..." is used by more than one node of flow' *)
 | ECrash (k : crash)    (* uncaught exception: traceback + status 1 *)
 | EInternal             (* a dangling index of the store: never happens (no Python counterpart) *)
@@ -148,7 +170,8 @@ Fixpoint dec_aux (fuel : nat) (n : N) (acc : str) : str :=
            let q := N.div n 10 in
            if N.eqb q 0 then (48 + d)%N :: acc else dec_aux f q ((48 + d)%N :: acc)
   end.
-Definition dec_nat (n : nat) : str := dec_aux 40 (N.of_nat n) [].
+(* str(n): one division per digit, so n + 1 steps are always enough *)
+Definition dec_nat (n : nat) : str := dec_aux (S n) (N.of_nat n) [].
 
 Definition nonempty (s : str) : bool := match s with [] => false | _ => true end.
 
@@ -179,12 +202,12 @@ Fixpoint upd_first {X} (p : X -> bool) (f : X -> X) (l : list X) : list X :=
 (* the same on get_categories(): categories, then the default category, then the No Response category *)
 Definition sw_upd_cat (p : ccat -> bool) (f : ccat -> ccat) (r : cswitch) : cswitch :=
   if existsb p (sw_cats r)
-  then mkSwitch (sw_operand r) (sw_result r) (sw_wait r) (sw_cases r) (upd_first p f (sw_cats r)) (sw_default r)
+  then mkSwitch (sw_operand r) (sw_result r) (sw_wait r) (sw_cases r) (upd_first p f (sw_cats r)) (sw_default r) (sw_auto r)
   else if p (sw_default r)
-  then mkSwitch (sw_operand r) (sw_result r) (sw_wait r) (sw_cases r) (sw_cats r) (f (sw_default r))
+  then mkSwitch (sw_operand r) (sw_result r) (sw_wait r) (sw_cases r) (sw_cats r) (f (sw_default r)) (sw_auto r)
   else match sw_wait r with
        | CWTimeout t c =>
-         if p c then mkSwitch (sw_operand r) (sw_result r) (CWTimeout t (f c)) (sw_cases r) (sw_cats r) (sw_default r)
+         if p c then mkSwitch (sw_operand r) (sw_result r) (CWTimeout t (f c)) (sw_cases r) (sw_cats r) (sw_default r) (sw_auto r)
          else r
        | _ => r
        end.
@@ -195,29 +218,29 @@ Definition uuid_is (u : id) (c : ccat) : bool := str_eqb (cc_uuid c) u.
 Definition sw_set_operand (r : cswitch) (v : str) : cswitch :=
   match v with
   | [] => r
-  | _ => mkSwitch v (sw_result r) (sw_wait r) (sw_cases r) (sw_cats r) (sw_default r)
+  | _ => mkSwitch v (sw_result r) (sw_wait r) (sw_cases r) (sw_cats r) (sw_default r) (sw_auto r)
   end.
 
 (* update_default_category(destination_uuid, category_name=None) *)
 Definition sw_update_default (r : cswitch) (d : dst) (name : str) : cswitch :=
   let c := cat_set_dest (sw_default r) d in
   let c := match name with [] => c | _ => cat_set_name c name end in
-  mkSwitch (sw_operand r) (sw_result r) (sw_wait r) (sw_cases r) (sw_cats r) c.
+  mkSwitch (sw_operand r) (sw_result r) (sw_wait r) (sw_cases r) (sw_cats r) c (sw_auto r).
 
 Definition sw_rename_default (r : cswitch) (name : str) : cswitch :=
-  mkSwitch (sw_operand r) (sw_result r) (sw_wait r) (sw_cases r) (sw_cats r) (cat_set_name (sw_default r) name).
+  mkSwitch (sw_operand r) (sw_result r) (sw_wait r) (sw_cases r) (sw_cats r) (cat_set_name (sw_default r) name) (sw_auto r).
 
 (* update_no_response_category (callers check has_positive_wait) *)
 Definition sw_update_noresp (r : cswitch) (d : dst) : cswitch :=
   match sw_wait r with
-  | CWTimeout t c => mkSwitch (sw_operand r) (sw_result r) (CWTimeout t (cat_set_dest c d)) (sw_cases r) (sw_cats r) (sw_default r)
+  | CWTimeout t c => mkSwitch (sw_operand r) (sw_result r) (CWTimeout t (cat_set_dest c d)) (sw_cases r) (sw_cats r) (sw_default r) (sw_auto r)
   | _ => r
   end.
 
 Definition sw_add_cat (r : cswitch) (c : ccat) : cswitch :=
-  mkSwitch (sw_operand r) (sw_result r) (sw_wait r) (sw_cases r) (sw_cats r ++ [c]) (sw_default r).
+  mkSwitch (sw_operand r) (sw_result r) (sw_wait r) (sw_cases r) (sw_cats r ++ [c]) (sw_default r) (sw_auto r).
 Definition sw_add_case (r : cswitch) (k : ccase) : cswitch :=
-  mkSwitch (sw_operand r) (sw_result r) (sw_wait r) (sw_cases r ++ [k]) (sw_cats r) (sw_default r).
+  mkSwitch (sw_operand r) (sw_result r) (sw_wait r) (sw_cases r ++ [k]) (sw_cats r) (sw_default r) (sw_auto r).
 
 (* generate_category_name: "_".join(str(a).title() ...), then "_alt" appended while the name is taken *)
 Definition arg_text (a : option str) : str := match a with Some s => s | None => s_None end.
@@ -251,13 +274,32 @@ Definition new_switch (n : nat) (operand : str) (result : option str) (timeout :
   | Err e => Err e
   | Ok (other, n1) =>
     match timeout with
-    | None => Ok (mkSwitch operand result CWNone [] [] other, n1)
-    | Some 0%N => Ok (mkSwitch operand result CWMsg [] [] other, n1)
+    | None => Ok (mkSwitch operand result CWNone [] [] other [], n1)
+    | Some 0%N => Ok (mkSwitch operand result CWMsg [] [] other [], n1)
     | Some t => match new_cat n1 s_NoResponse None with
                 | Err e => Err e
-                | Ok (nr, n2) => Ok (mkSwitch operand result (CWTimeout t nr) [] [] other, n2)
+                | Ok (nr, n2) => Ok (mkSwitch operand result (CWTimeout t nr) [] [] other [], n2)
                 end
     end
+  end.
+
+(* SwitchRouter._claim_category_name (the repair of the finding category-name-clash; Gen/Tables.v: explicit_names_claimed):
+   a name given by the sheet refers to the category the sheet gave that name to - it is refused when it is the name of
+   the default / No Response category, and a category that merely was given the same INVENTED name makes way ("_alt") *)
+Definition sw_mark_auto (r : cswitch) (u : id) : cswitch :=
+  mkSwitch (sw_operand r) (sw_result r) (sw_wait r) (sw_cases r) (sw_cats r) (sw_default r) (u :: sw_auto r).
+
+Definition sw_claim (r : cswitch) (nm : str) : res cswitch :=
+  match find (name_is nm) (sw_all_cats r) with
+  | None => Ok r
+  | Some c =>
+    if str_eqb (cc_uuid c) (cc_uuid (sw_default r)) || existsb (uuid_is (cc_uuid c)) (wait_cats (sw_wait r)) then Err ECatNameTaken
+    else if memb (cc_uuid c) (sw_auto r)
+    then match alt_loop (S (length (sw_all_cats r))) (map cc_name (sw_all_cats r)) (nm ++ s_alt) with
+         | Err e => Err e
+         | Ok nm' => Ok (sw_upd_cat (uuid_is (cc_uuid c)) (fun x => cat_set_name x nm') r)
+         end
+    else Ok r
   end.
 
 (* SwitchRouter.add_choice *)
@@ -271,6 +313,8 @@ Definition sw_add_choice (n : nat) (r : cswitch) (variable ty : str) (args : lis
     then Ok (sw_upd_cat (uuid_is (ck_cat k)) (fun c => cat_set_dest c d) r, n)
     else Err (ECrash CKeyError)
   | None =>
+    let generated := match name with [] => true | _ => false end in
+    let mark (r' : cswitch) (u : id) := if generated then sw_mark_auto r' u else r' in
     match (match name with [] => gen_cat_name (map cc_name (sw_all_cats r)) args | _ => Ok name end) with
     | Err e => Err e
     | Ok nm =>
@@ -281,21 +325,25 @@ Definition sw_add_choice (n : nat) (r : cswitch) (variable ty : str) (args : lis
         | Ok (k, n1) => Ok (sw_add_case r1 k, n1)
         end
       else
-        (* get_or_create_category: the first category of get_categories() with that name is re-targeted *)
-        match find (name_is nm) (sw_all_cats r) with
-        | Some c =>
-          let r1 := sw_upd_cat (name_is nm) (fun c => cat_set_dest c d) r in
-          match new_case n ty args (cc_uuid c) with
-          | Err e => Err e
-          | Ok (k, n1) => Ok (sw_add_case r1 k, n1)
-          end
-        | None =>
-          match new_cat n nm d with
-          | Err e => Err e
-          | Ok (c, n1) =>
-            match new_case n1 ty args (cc_uuid c) with
+        match (if explicit_names_claimed && negb generated then sw_claim r nm else Ok r) with
+        | Err e => Err e
+        | Ok r =>
+          (* get_or_create_category: the first category of get_categories() with that name is re-targeted *)
+          match find (name_is nm) (sw_all_cats r) with
+          | Some c =>
+            let r1 := sw_upd_cat (name_is nm) (fun c => cat_set_dest c d) r in
+            match new_case n ty args (cc_uuid c) with
             | Err e => Err e
-            | Ok (k, n2) => Ok (sw_add_case (sw_add_cat r c) k, n2)
+            | Ok (k, n1) => Ok (mark (sw_add_case r1 k) (cc_uuid c), n1)
+            end
+          | None =>
+            match new_cat n nm d with
+            | Err e => Err e
+            | Ok (c, n1) =>
+              match new_case n1 ty args (cc_uuid c) with
+              | Err e => Err e
+              | Ok (k, n2) => Ok (mark (sw_add_case (sw_add_cat r c) k) (cc_uuid c), n2)
+              end
             end
           end
         end
@@ -446,7 +494,7 @@ Definition node_fill_loose (nd : cnode) (d : dst) : cnode :=
     | BSwitch cls r =>
       BSwitch cls (mkSwitch (sw_operand r) (sw_result r)
                             (match sw_wait r with CWTimeout t c => CWTimeout t (fill_cat d c) | w => w end)
-                            (sw_cases r) (map (fill_cat d) (sw_cats r)) (fill_cat d (sw_default r)))
+                            (sw_cases r) (map (fill_cat d) (sw_cats r)) (fill_cat d (sw_default r)) (sw_auto r))
     | BRandom r => BRandom (mkRandom (rr_result r) (map (fill_cat d) (rr_cats r)))
     end.
 
@@ -489,6 +537,12 @@ Fixpoint cconnect_loose (fuel : nat) (s : cstate) (g : nat) (d : dst) : res csta
 (* ---------------------------------------------------------------- add_exit *)
 (* the edge a SwitchRouter receives: (variable, test type, arguments) *)
 Definition or_default (s dflt : str) : str := match s with [] => dflt | _ => s end.
+
+(* comparison_arguments of an edge leaving a row that is not a split_by_group row / leaving a no_op decision *)
+Definition by_name_args (flag : bool) (c : econd) : list (option str) :=
+  if flag && str_eqb (c_type c) has_group_s then [None; Some (c_value c)] else [Some (c_value c)].
+Definition row_args (c : econd) : list (option str) := by_name_args has_group_edges_by_name c.
+Definition noop_args (c : econd) : list (option str) := by_name_args has_group_by_name_from_noop c.
 
 (* BaseNode/RouterNode.update_default_exit on the node nd *)
 Definition node_update_default (n : nat) (nd : cnode) (d : dst) : res (cnode * nat) :=
@@ -542,7 +596,7 @@ Definition row_add_exit (s : cstate) (g k1 : nat) (k2 : list nat) (rt : rowtype)
                         | _ => sw_operand r
                         end in
         let ty := match rt with RTSplitGroup => has_group_s | _ => or_default (c_type c) s_has_any_word end in
-        let args := match rt with RTSplitGroup => [None; Some (c_value c)] | _ => [Some (c_value c)] end in
+        let args := match rt with RTSplitGroup => [None; Some (c_value c)] | _ => row_args c end in
         match sw_add_choice n r variable ty args (c_cname c) d false with
         | Err e => Err e
         | Ok (r', n1) => Ok (set_node s k (with_body nd (BSwitch SPlain r')) n1)
@@ -563,7 +617,7 @@ Definition row_add_exit (s : cstate) (g k1 : nat) (k2 : list nat) (rt : rowtype)
         | Ok (u, gv, r0, n1) =>
           let r1 := sw_update_default r0 (x_dest e) [] in
           let (e', n2) := new_exit n1 (Some u) in
-          match sw_add_choice n2 r1 variable (or_default (c_type c) s_has_any_word) [Some (c_value c)] (c_cname c) d false with
+          match sw_add_choice n2 r1 variable (or_default (c_type c) s_has_any_word) (row_args c) (c_cname c) d false with
           | Err e'' => Err e''
           | Ok (r2, n3) =>
             let k' := length (cs_nodes s) in
@@ -586,7 +640,7 @@ Definition noop_router_edge (s : cstate) (k : nat) (d : dst) (c : econd) : res c
       if negb (nonempty (c_value c)) && negb (memb (c_type c) no_args_tests)
       then Ok (set_node s k (with_body nd (BSwitch cls (sw_update_default r d []))) (cs_next s))
       else match sw_add_choice (cs_next s) r (c_variable c) (or_default (c_type c) s_has_any_word)
-                               [Some (c_value c)] (c_cname c) d false with
+                               (noop_args c) (c_cname c) d false with
            | Err e => Err e
            | Ok (r', n1) => Ok (set_node s k (with_body nd (BSwitch cls r')) n1)
            end
@@ -683,7 +737,8 @@ Definition sentinel_dst : dst := Some hard_exit_sentinel.
 
 Definition is_basic_kind (k : nkind) : bool := match k with KBasic1 | KBasic2 => true | _ => false end.
 
-Definition cstep (s : cstate) (cr : crow) : res cstate :=
+(* one row AS READ (its edges are what _parse_next_row hands to _parse_row / _parse_block) *)
+Definition cstep_read (s : cstate) (cr : crow) : res cstate :=
   let r := cr_row cr in
   match r_type r with
   | THard => foldM (fun s' e => cadd_row_edge s' e sentinel_dst) (r_edges r) s
@@ -767,10 +822,9 @@ Definition cstep (s : cstate) (cr : crow) : res cstate :=
       | Ok (nd, n2) =>
         let k := length (cs_nodes s) in
         let s1 := push_node s nd n2 in
-        let es := match r_edges r with
-                  | [] => []
-                  | e0 :: rest => e0 :: filter (fun e => negb (edge_trivial e)) rest
-                  end in
+        (* before the repair: `if edge != Edge() or i == 0` here; since then on every row when it is read
+           (drop_padding is idempotent) *)
+        let es := drop_padding (r_edges r) in
         match foldM (fun s' e => cadd_row_edge s' e (Some (cn_uuid nd))) es s1 with
         | Err x => Err x
         | Ok s2 => Ok (set_names (add_cgroup s2 (CGRow k [] (rowtype_of (cr_kind cr))) (r_id r)) node_name k)
@@ -778,6 +832,8 @@ Definition cstep (s : cstate) (cr : crow) : res cstate :=
       end
     end
   end.
+
+Definition cstep (s : cstate) (cr : crow) : res cstate := cstep_read s (cread_row cr).
 
 (* ---------------------------------------------------------------- _compile_flow and render *)
 Definition opt_list {X} (o : option X) : list X := match o with Some x => [x] | None => [] end.
@@ -825,6 +881,13 @@ Definition render_node (nd : cnode) : node :=
            (Some (RRandom (map render_cat (rr_cats r)) (render_result (rr_result r))))
   end.
 
+(* SwitchRouter.record_global_uuids (RapidProContainer.update_global_uuids, when the container is validated):
+   `case.arguments[1]` of every has_group case *)
+Definition case_has_group_name (k : ccase) : bool :=
+  negb (str_eqb (ck_type k) has_group_s) || Nat.leb 2 (length (ck_args k)).
+Definition node_groups_named (nd : cnode) : bool :=
+  match cn_body nd with BSwitch _ r => forallb case_has_group_name (sw_cases r) | _ => true end.
+
 (* `validate` = the node-uuid validation of _compile_flow (Flow/NodeIdCheck.v: compile_flow_validation, which
    follows the probed constant compile_checks_node_uuids) *)
 Definition cfinish_with (validate : list str -> option str) (name : str) (s : cstate) : res flow :=
@@ -842,7 +905,8 @@ Definition cfinish_with (validate : list str -> option str) (name : str) (s : cs
         | Ok nds =>
           match validate (map cn_uuid nds) with
           | Some u => Err (EDupNodeUuid u)
-          | None => Ok (mkFlow fu name (map render_node nds))
+          | None => if forallb node_groups_named nds then Ok (mkFlow fu name (map render_node nds))
+                    else Err (ECrash CIndexError)
           end
         end
       end
@@ -850,6 +914,15 @@ Definition cfinish_with (validate : list str -> option str) (name : str) (s : cs
     end
   end.
 
+(* rows as read *)
+Definition crun_read (rows : list crow) : res cstate := foldM cstep_read rows cs0.
+Definition compile_read_with (validate : list str -> option str) (name : str) (rows : list crow) : res flow :=
+  match crun_read rows with
+  | Err x => Err x
+  | Ok s => cfinish_with validate name s
+  end.
+
+(* rows as written in the sheet *)
 Definition crun (rows : list crow) : res cstate := foldM cstep rows cs0.
 
 Definition compile_with (validate : list str -> option str) (name : str) (rows : list crow) : res flow :=
